@@ -325,7 +325,7 @@ def check_property(prop, tier, seed, jobs):
         for label, _ in o.instances(tier):
             tasks.append((o.id, label, tier, seed))
     bnds = [b for b in registry.BOUNDED.values() if prop in b.props]
-    results = run_tasks(tasks, jobs, 150 if tier == "quick" else 1500)
+    results = run_tasks(tasks, jobs, 400 if tier == "quick" else 1800)
     bres = []
     for b in bnds:
         tb = time.time()
